@@ -145,7 +145,7 @@ Section Loop.
         if t_start t <? off s then
           match last s with
           | Some lt =>
-              if truthy lt && kind_eqb (t_kind t) KCitation && nominative lt then
+              if truthy lt && kind_eqb (t_kind t) KCitation && (t_end lt <? t_end t) && nominative lt then
                 (* prefer the other citation: drop the nominative one, rewind *)
                 emit s t (t_start lt) (tl (all_rev s)) (tl (cits_rev s))
               else s
